@@ -198,6 +198,10 @@ def r2_open_coverage(P, rep, ctx):
     rep.check(cu == [f"{{{rv}._ublock(f).patch_uuid for f in {rv}.__files__}}"] and all(g.exit not in g.reach([b for b, l in g.succ[t] if l == "T"]) for t in ut), "C04.R2", fi.qual, "the uuid set is taken over all containers and a duplicate raises", fi.loc(), construct=f"cn_uuids = {cu}", message=f"distinct-uuid check is computed from {cu} / does not raise")
     lb = [norm(v) for k, v in defs.get(f"{rv}._ublocks", []) if v is not None]
     rep.check(f"{rv}._ublocks = {{Path(path): IH5UserBlock.load(path) for path in paths}}" in norm(fi.node), "C04.R2", fi.qual, "every given file's user block is loaded (and parsed)", fi.loc(), construct="user block loading", message="_open does not load the user block of every given path")
+    opened = [n for n in g.nodes if n.kind == "stmt" and isinstance(n.stmt, ast.Assign) and any(norm(t) == f"{rv}.__files__" for t in n.stmt.targets)]
+    ok = bool(opened) and all(isinstance(n.stmt.value, ast.ListComp) and norm(n.stmt.value.generators[0].iter) == "paths" and not n.stmt.value.generators[0].ifs and "h5py.File(" in norm(n.stmt.value.elt) for n in opened)
+    rep.check(ok, "C04.R2", fi.qual, "every given file is opened and takes part in the checks (one handle per element of `paths`)", fi.loc(opened[0].stmt) if opened else fi.loc(), construct="file list = one handle per given path",
+              message="_open does not open one container per given path (e.g. files are keyed by patch_index first): a duplicated / forked container is silently dropped instead of making the open fail")
     emp = [t for t in g.nodes if t.kind == "test" and norm(t.exprs[0]) == "not paths"]
     rep.check(bool(emp) and all(g.exit not in g.reach([b for b, l in g.succ[t.idx] if l == "T"]) for t in emp), "C04.R2", fi.qual, "an empty file list is refused", fi.loc(), construct="empty list", message="_open accepts an empty list of containers")
 
@@ -263,6 +267,14 @@ def r5_payload_hash(P, rep, ctx):
                 rep.check(sb is not None and norm(sb) == "USER_BLOCK_SIZE", "C04.R5", fi.qual, "payload hash skips exactly the user block", fi.loc(c), construct=norm(c), message=f"{q} hashes with {norm(c)}: writer and checker disagree on the hashed region")
     if n < 3:
         raise AnalysisError("C04.R5: payload hash call sites not found")
+    for q in (f"{R}.hashsum_file", "util.hashsums.qualified_hashsum", "util.hashsums.hashsum"):
+        f = P.func(q)
+        decos = [norm(d.func) if isinstance(d, ast.Call) else norm(d) for d in f.node.decorator_list]
+        memo = [d for d in decos if d.split(".")[-1] in ("lru_cache", "cache", "cached_property", "memoize")]
+        statuse = [x for x in walk_local(f.node) if (isinstance(x, ast.Attribute) and x.attr.startswith("st_")) or (isinstance(x, ast.Call) and call_attr(x) in ("stat", "lstat", "getmtime", "getsize"))]
+        cache_like = [x for x in walk_local(f.node) if isinstance(x, ast.Name) and "cache" in x.id.lower()]
+        rep.check(not memo and not statuse and not cache_like, "C04.R5", f.qual, "integrity hash is recomputed from the file's bytes on every check (no memoisation / stat shortcut)", f.loc(), construct=f"purity of {q.rsplit('.', 1)[-1]}",
+                  message=f"{q} does not recompute the hash from the current bytes (memoised / keyed on stat values): an in-place tampered payload with restored size+mtime passes the integrity check")
     ubs = P.const(R, "USER_BLOCK_SIZE")
     nc = P.func(f"{R}.IH5Record._new_container")
     rep.check(ubs == 1024 and "userblock_size=USER_BLOCK_SIZE" in norm(nc.node), "C04.R5", nc.qual, "containers reserve exactly USER_BLOCK_SIZE bytes", nc.loc(), construct="userblock_size", message="container user block size differs from USER_BLOCK_SIZE")
